@@ -95,6 +95,8 @@ class RayFn(FnTr):
                 return "(sum_list %s)" % a, "R"
             if ta == "vec3":
                 return "(vsum %s)" % a, "R"
+            if ta == "R":
+                return a, "R"
         if d in (("np", "asarray"), ("np", "array")) and len(n.args) == 1 and isinstance(n.args[0], ast.Name):
             try:
                 a, ta = self.expr(n.args[0])
@@ -350,7 +352,84 @@ def generate_uniform(repo):
     return mod.result(), mod.hashes
 
 
+# ------------------------------------------------------------------------------------ Gen_layered
+LTRACER_RECORD = [("from_point", "vec3"), ("to_point", "vec3")]
+
+
+def generate_layered(repo):
+    """Arithmetic of the layered tracer (pyrex/custom/layered_ice/ray_tracing.py): angle updates of
+    _trace_path, the uniform-layer radial distance, the assembly of the junction points, the
+    transmission factors of LayeredRayTracePath.fresnel.  Control flow (loops over groups, recursion
+    of _build_path) is hand-modelled in Model/LayeredPath.v."""
+    mod = Module(repo, "pyrex/custom/layered_ice/ray_tracing.py", records={"LTracer": LTRACER_RECORD})
+    mod.emit("From PyrexLib Require Import ListR.")
+    decl_record(mod, "LTracer")
+    ct = ClassTr(mod, "LayeredRayTracer", record="LTracer")
+    ct.fn_class = RayFn
+    for m in ["z0", "z1", "rho", "phi"]:
+        if ct.member(m) is None:
+            raise TranslationError("%s: LayeredRayTracer.%s not found" % (mod.source, m))
+    T = "LayeredRayTracer_trace_path__"
+    fn = find_func(mod, "LayeredRayTracer", "_trace_path")
+    n_angle = count_nodes(fn, lambda c: isinstance(c, ast.Assign) and len(c.targets) == 1 and ast.unparse(c.targets[0]) == "angle")
+    n_sin = count_nodes(fn, lambda c: isinstance(c, ast.Assign) and len(c.targets) == 1 and ast.unparse(c.targets[0]) == "sin_angle")
+    if n_angle != 5 or n_sin != 2:
+        raise TranslationError("%s: LayeredRayTracer._trace_path: expected 5 assignments to angle and 2 to sin_angle, found %d and %d"
+                               % (mod.source, n_angle, n_sin))
+    here, nxt, bnd = "models[i].index(depths[start])", "models[i + 1].index(depths[stop])", "models[i].index(depths[stop])"
+    snippet(ct, "_trace_path", T + "turn_in_layer", assigns_to("angle", 0), [("angle", "R")], want_type="R")
+    snippet(ct, "_trace_path", T + "transmit_sin", assigns_to("sin_angle", 0), [("angle", "R"), ("n_here", "R"), ("n_next", "R")],
+            subst={here: "n_here", nxt: "n_next"}, want_type="R")
+    snippet(ct, "_trace_path", T + "transmit_up", assigns_to("angle", 1), [("sin_angle", "R")], want_type="R")
+    snippet(ct, "_trace_path", T + "transmit_down", assigns_to("angle", 2), [("sin_angle", "R")], want_type="R")
+    snippet(ct, "_trace_path", T + "reflect_sin", assigns_to("sin_angle", 1), [("angle", "R"), ("n_here", "R"), ("n_bound", "R")],
+            subst={here: "n_here", bnd: "n_bound"}, want_type="R")
+    snippet(ct, "_trace_path", T + "reflect_from_up", assigns_to("angle", 3), [("sin_angle", "R")], want_type="R")
+    snippet(ct, "_trace_path", T + "reflect_from_down", assigns_to("angle", 4), [("sin_angle", "R")], want_type="R")
+    # the tests that select the branches (angle < pi/2 = travelling upward; sin_angle > 1 = no transmission)
+    def tests(fn):
+        return [c.test for c in ast.walk(fn) if isinstance(c, ast.If)]
+    def test_sel(text, nth=0):
+        def sel(fn):
+            hits = [t for t in tests(fn) if ast.unparse(t) == text]
+            hits.sort(key=lambda v: (v.lineno, v.col_offset))
+            return hits[nth] if len(hits) > nth else None
+        return sel
+    snippet(ct, "_trace_path", T + "is_upward", test_sel("angle < np.pi / 2", 0), [("angle", "R")], want_type="bool")
+    snippet(ct, "_trace_path", T + "is_upward_refl", test_sel("angle < np.pi / 2", 1), [("angle", "R")], want_type="bool")
+    snippet(ct, "_trace_path", T + "total_internal", test_sel("sin_angle > 1"), [("sin_angle", "R")], want_type="bool")
+    # radial distance in a uniform layer
+    snippet(ct, "_get_radial_distance", "LayeredRayTracer_get_radial_distance__uniform",
+            lambda fn: [c.value for c in ast.walk(fn) if isinstance(c, ast.Return) and c.value is not None
+                        and "np.tan(angle)" in ast.unparse(c.value)][0],
+            [("angle", "R"), ("dz", "R")], subst={"np.diff(zs)": "dz"}, want_type="R")
+    # junction points and the level -> boundary index
+    S = "LayeredRayTracer_solutions__"
+    snippet(ct, "solutions", S + "x", assigns_to("points[1:, 0]"), [("r_k", "R")], subst={"rs": "r_k"}, want_type="R")
+    snippet(ct, "solutions", S + "y", assigns_to("points[1:, 1]"), [("r_k", "R")], subst={"rs": "r_k"}, want_type="R")
+    snippet(ct, "solutions", S + "boundary_index", lambda fn: [c.args[0].slice for c in ast.walk(fn)
+            if isinstance(c, ast.Call) and ast.unparse(c.func) == "path_zs.append" and isinstance(c.args[0], ast.Subscript)][0],
+            [("level", "Z"), ("direction", "Z")], want_type="Z")
+    # Fresnel transmission of the chained path
+    cp = ClassTr(mod, "LayeredRayTracePath", record=None)
+    cp.fn_class = RayFn
+    F = "LayeredRayTracePath_fresnel__"
+    fn = find_func(mod, "LayeredRayTracePath", "fresnel")
+    if count_nodes(fn, lambda c: isinstance(c, ast.Assign) and len(c.targets) == 1 and ast.unparse(c.targets[0]) == "sin_2") != 2:
+        raise TranslationError("%s: LayeredRayTracePath.fresnel: expected 2 assignments to sin_2" % mod.source)
+    snippet(cp, "fresnel", F + "theta_1", assigns_to("theta_1", 0), [("recv_z", "R")], subst={"path_1.received_direction[2]": "recv_z"}, want_type="R")
+    snippet(cp, "fresnel", F + "theta_1_down", assigns_to("theta_1", 1), [("theta_1", "R")], want_type="R")
+    snippet(cp, "fresnel", F + "cos_1", assigns_to("cos_1"), [("theta_1", "R")], want_type="R")
+    snippet(cp, "fresnel", F + "transmit_sin_2", assigns_to("sin_2", 1), [("n_1", "R"), ("n_2", "R"), ("theta_1", "R")], want_type="R")
+    snippet(cp, "fresnel", F + "transmit_cos_2", assigns_to("cos_2", 2), [("sin_2", "R")], want_type="R")
+    snippet(cp, "fresnel", F + "t_s", assigns_to("t_s"), [("n_1", "R"), ("n_2", "R"), ("cos_1", "R"), ("cos_2", "R")], want_type="R")
+    snippet(cp, "fresnel", F + "t_p", assigns_to("t_p"), [("n_1", "R"), ("n_2", "R"), ("cos_1", "R"), ("cos_2", "R")], want_type="R")
+    snippet(cp, "fresnel", F + "real_branch", lambda fn: [c.test for c in ast.walk(fn) if isinstance(c, ast.If)
+            and ast.unparse(c.test) == "sin_2 <= 1"][1], [("sin_2", "R")], want_type="bool")
+    return mod.result(), mod.hashes
+
+
 if __name__ == "__main__":
     which = sys.argv[2] if len(sys.argv) > 2 else "uniform"
-    text, h = {"uniform": generate_uniform}[which](sys.argv[1])
+    text, h = {"uniform": generate_uniform, "layered": generate_layered}[which](sys.argv[1])
     print(text)
